@@ -430,27 +430,7 @@ def some(items, what, minimum=1):
 def resolve_call(ctx, func, call):
     """Resolve a call made inside ``func`` to a FuncInfo of the package when
     possible: self.m() through the MRO, module.f(), plain f()."""
-    index = ctx.index
-    fexpr = call.func
-    if isinstance(fexpr, ast.Attribute) and name_is(fexpr.value, 'self') \
-            and func.cls is not None:
-        return index.find_method(func.cls, fexpr.attr)
-    if isinstance(fexpr, ast.Attribute) and isinstance(fexpr.value, ast.Call) \
-            and dotted_text(fexpr.value.func) == 'super' \
-            and func.cls is not None:
-        return index.find_method(func.cls, fexpr.attr, skip_self=True)
-    res = index.resolve_expr(func.module, fexpr)
-    if res and res[0] == 'func':
-        return res[1]
-    if isinstance(fexpr, ast.Name) and func.parent is not None:
-        nested = func.parent.nested()
-        if fexpr.id in nested:
-            return nested[fexpr.id]
-    if isinstance(fexpr, ast.Name):
-        nested = func.nested()
-        if fexpr.id in nested:
-            return nested[fexpr.id]
-    return None
+    return ctx.index.resolve_call(func, call)
 
 
 def callee_always_calls(ctx, callee, param, method, depth=0):
